@@ -76,10 +76,11 @@ TEXT = {
     },
     "C16": {
         "level": "Machine-checked theorems: the std-type table extracted from the current source (32 parameterless impls, 15 constructor impls) is exactly the table the property describes (integers to int, floats to float, strings and chars to string, Option to ?, sequences and sets to [], string-keyed maps to [string], unit to the empty object, wrappers transparent), in both directions; "
-                 "lifted by induction to every Rust type expression (idlType = specTy, including that a type outside the rules has no impl); the derives list exactly the fields / variants, in declaration order, under their Rust names, with doc comments as comments. "
+                 "lifted by induction to every Rust type expression (idlType = specTy, including that a type outside the rules has no impl); the derives list exactly the fields / variants, in declaration order, under their Rust names, with doc comments as comments; what the derives assemble for a module with legal names is a well-formed description, so its text parses back to exactly it and re-renders identically "
+                 "(C16_assembled_roundtrip, composing with the round-trip theorem of C14; excluded, as decidable conditions on the declarations: documented enum variants - the listed finding - and Option directly around Option). "
                  "A corpus of 80 (quick) / 400 (thorough) generated modules is compiled with the derives on every run; TYPE / CUSTOM_TYPE / VARIANTS and the assembled interface's text and re-parse are compared with the model and the oracle.",
         "design_ref": "DESIGN.md §5 C16", "note": "Trusted: Lean kernel; the extractor's regexes over type/*.rs (the table theorems are re-checked against their output on every run); rustc trait resolution and macro expansion as compiled; the Python corpus generator.",
-        "technique": "Lean 4 proof over a translator-extracted impl table (table agreement by kernel evaluation, lifted by induction) + compile-and-run correspondence over a generated derive corpus; round trip by Lean oracle on the implementation's text",
+        "technique": "Lean 4 proof over a translator-extracted impl table (table agreement by kernel evaluation, lifted by induction) + compile-and-run correspondence over a generated derive corpus; round trip: theorem on the model (assembled description well-formed, then C14) and Lean oracle on the implementation's text",
     },
     "C13": {
         "level": "Proof of the completeness direction for every layout + exhaustive-style correspondence. Machine-checked (unbounded in names, nesting depth, numbers of members / fields / variants / comments, and layout): every text of the grammar - given as an inductive relation between descriptions and texts with gaps of space/tab/CR/LF wherever tokens meet inside parentheses, around `:` `,` `->`, after keywords and between members, comment lines with arbitrary blanks in front of the interface, members, fields, parameters and custom-enum variants, members of the three kinds in any interleaving, optional gaps around the text - parses to exactly the description it denotes (C13_layout; C13_complete for the canonical text); the three name lexers are exact resp. complete for the grammar's regular expressions with longest match; parsing is total with two outcomes (no panic path in the model; the real parser runs under catch_unwind). Soundness is machine-checked too (every input text): whatever is accepted yields a description of grammatical names and parser-shaped comments (C13_sound_tree), and the accepted text is, after trimming, a text of the inductive grammar IfaceS denoting exactly that description - every byte a token of it, an attached comment or layout, nothing ignored (C13_sound_text; side condition: no variant-less inline enum in the result). The keywords, primitive names and punctuation the models use are extracted from the source on every run (C13_literals). Not proved: equality of the completeness grammar and the soundness grammar. The correspondence run (function-by-function parser port vs real parser, plus an independent oracle) covers ~65k (quick) / ~6M (thorough) legal, truncated, mutated, deeply nested and random texts.",
@@ -106,7 +107,7 @@ TEXT = {
     },
     "C17": {
         "level": "Machine-checked theorems parametric in growth step and limit: buffer capacity never exceeds the limit (inbound: every event sequence; outbound: every operation); a lone frame is "
-                 "delivered iff its wire size is below the limit, for every growth step and read-size schedule, otherwise overflow with exactly `max` bytes buffered; an outbound message is accepted iff "
+                 "delivered iff its wire size is below the limit, for every growth step and read-size schedule, otherwise overflow with exactly `max` bytes buffered, on a fresh connection and after ANY history of consumed bursts (C17_rx_threshold_any_history); an outbound message is accepted iff "
                  "queued+len+1 <= limit, else refused with nothing queued or written. Boundary sweeps of the real code run at the hook-lowered limit against model and closed form, for lone frames and for frames behind a history of earlier, consumed frames (the verdict for a size must not depend on what the connection carried before).",
         "design_ref": "DESIGN.md §5 C17", "note": RX_NOTE + " " + TX_NOTE,
         "technique": "Lean 4 proof (capacity invariant, closed-form thresholds) on hand-written models with extracted constants; boundary-sweep correspondence run under the cfg hook",
@@ -114,6 +115,7 @@ TEXT = {
     "C01": {
         "level": "Machine-checked theorems (unbounded: every frame list, every read-size schedule, every arrival interleaving, every decode function) "
                  "about the receive-path model: one result per frame, in order, a function of that frame's bytes only, then end-of-stream; "
+                 "streams of any total length are covered burst by burst (C01_any_length: only what is buffered at once is bounded by the limit; the capacity the buffer grew to earlier changes nothing); "
                  "tied to the code by a differential run of ~5k (quick) / ~60k (thorough) event scripts on the real Connection, with the Lean oracle evaluated on the implementation's own observations.",
         "design_ref": "DESIGN.md §5 C01, §4.1", "note": RX_NOTE,
         "technique": "Lean 4 proof (invariant + induction over events) on a hand-written model; model-vs-implementation correspondence run",
